@@ -6,5 +6,6 @@ MCDocPatterns == {<<>>} \cup {<<a>> : a \in Classes} \cup {<<a, b>> : a \in Clas
 MCDocPatternsSmall == {<<>>} \cup {<<a>> : a \in Classes} \cup {<<"plain", "blank", "unicode">>, <<"tagplus", "namefirst">>, <<"quotes", "tagat", "percent">>}
 MCFieldDocPatterns == {<<>>, <<"plain">>, <<"quotes", "backquote">>, <<"tagplus", "percent">>, <<"plain", "blank", "atname">>, <<"backslash">>, <<"unicode", "tagat">>}
 MCKinds == {"struct", "genericStruct", "scalar", "map", "slice", "func", "interface", "unexportedScalar"}
-MCFieldPatterns == {"one", "withUnexported", "anonStruct", "emptyNamed", "embedValue", "embedPointer", "embedDocumented", "noExported", "namedCovered", "two"}
+MCFieldPatterns == {"one", "withUnexported", "anonStruct", "emptyNamed", "embedValue", "embedPointer", "embedDocumented", "noExported", "namedCovered", "two",
+                    "namedIface", "namedGenericInst", "namedScalar"}      \* fields of a same-package interface / generic instantiation / named scalar
 =============================================================================
